@@ -234,7 +234,7 @@ theorem getD_refines (r : Rel) (a : ADict V) (k : VName) (v : V) :
   have e : (absD a).val (csigned r (absD a).signedValues k).1
       = a.d.get (csigned r a.signedValues k).1 := rfl
   simp only [e]
-  cases hg : a.d.get (csigned r a.signedValues k).1 <;> (simp [ADict.contains, has, hg, ADict.get]; rfl)
+  cases hg : a.d.get (csigned r a.signedValues k).1 <;> (simp [ADict.contains, has, hg, ADict.get]; try rfl)
 
 theorem update_refines (r : Rel) (kvs : List (VName × V)) : ∀ (a : ADict V), WF a →
     ((a.update r kvs).1 |> absD, (a.update r kvs).2) = (absD a).update r kvs
@@ -314,5 +314,128 @@ theorem step_refines (r : Rel) (s : St V) (op : Op V) (hc : WF s.cur) (ha : WF s
     rw [absD_items _ hc]
     exact ⟨rfl, hc, hc⟩
   | swap => exact ⟨rfl, ha, hc⟩
+
+end RtcVerif.C13
+
+namespace RtcVerif.C13
+open PyDict
+
+variable {V : Type} [NegVal V]
+
+/-- an invariant of single steps is an invariant of runs -/
+theorem run_invariant (r : Rel) (P : St V → Prop) (hstep : ∀ s op, P s → P (step r s op).1) :
+    ∀ (ops : List (Op V)) (s : St V), P s → P (run r s ops).1 := by
+  intro ops
+  induction ops with
+  | nil => intro s h; exact h
+  | cons op ops ih =>
+    intro s h
+    simp only [run]
+    exact ih _ (hstep s op h)
+
+omit [NegVal V] in
+theorem PyDict.get_of_mem (d : PyDict V) (hnd : (keys d).Nodup) (c : VName) (v : V)
+    (hm : (c, v) ∈ d) : get d c = some v := by
+  induction d with
+  | nil => cases hm
+  | cons p rest ih =>
+    obtain ⟨k', v'⟩ := p
+    have hnd' : (keys rest).Nodup := (List.nodup_cons.1 hnd).2
+    have hk' : k' ∉ keys rest := (List.nodup_cons.1 hnd).1
+    rcases List.mem_cons.1 hm with h | h
+    · injection h with h1 h2; subst h1; subst h2; simp [get]
+    · have : k' ≠ c := by
+        intro e; subst e
+        exact hk' (List.mem_map.2 ⟨(k', v), h, rfl⟩)
+      simp [get, this, ih hnd' h]
+
+/-- every key of the private dict is a canonical name (its own canonical, sign `+`) -/
+def Canon (r : Rel) (a : ADict V) : Prop := ∀ c ∈ keys a.d, r c = (c, Sign.pos)
+
+theorem set_canon (r : Rel) (hr : r.Idem) (a a' : ADict V) (k : VName) (v : V) (h : Canon r a)
+    (hs : a.set r k v = .ok a') : Canon r a' := by
+  unfold ADict.set at hs
+  split at hs
+  · injection hs with hs; subst hs
+    intro c hc
+    simp only [keys_set] at hc
+    split at hc
+    · exact h c hc
+    · rcases List.mem_append.1 hc with h1 | h1
+      · exact h c h1
+      · simp only [List.mem_singleton] at h1
+        subst h1
+        unfold csigned
+        split <;> exact hr k
+  · cases hs
+
+omit [NegVal V] in
+theorem del_canon (r : Rel) (a a' : ADict V) (k : VName) (h : Canon r a)
+    (hs : a.del r k = .ok a') : Canon r a' := by
+  unfold ADict.del at hs
+  split at hs
+  · injection hs with hs; subst hs
+    intro c hc
+    simp only [keys_del] at hc
+    exact h c (List.mem_of_mem_erase hc)
+  · cases hs
+
+theorem update_canon (r : Rel) (hr : r.Idem) (l : List (VName × V)) :
+    ∀ a : ADict V, Canon r a → Canon r (a.update r l).1 := by
+  induction l with
+  | nil => intro a h; exact h
+  | cons p rest ih =>
+    intro a h
+    obtain ⟨k, v⟩ := p
+    simp only [ADict.update]
+    cases hs : a.set r k v with
+    | ok a' => exact ih a' (set_canon r hr a a' k v h hs)
+    | error e => exact h
+
+theorem step_canon (r : Rel) (hr : r.Idem) (s : St V) (op : Op V)
+    (h : Canon r s.cur ∧ Canon r s.alt) :
+    Canon r (step r s op).1.cur ∧ Canon r (step r s op).1.alt := by
+  obtain ⟨hc, ha⟩ := h
+  cases op with
+  | set k v =>
+    simp only [step]
+    cases hs : s.cur.set r k v with
+    | ok a' => exact ⟨set_canon r hr _ _ k v hc hs, ha⟩
+    | error e => exact ⟨hc, ha⟩
+  | get k => simp only [step]; cases s.cur.get r k <;> exact ⟨hc, ha⟩
+  | del k =>
+    simp only [step]
+    cases hs : s.cur.del r k with
+    | ok a' => exact ⟨del_canon r _ _ k hc hs, ha⟩
+    | error e => exact ⟨hc, ha⟩
+  | contains k => exact ⟨hc, ha⟩
+  | len => exact ⟨hc, ha⟩
+  | keys => exact ⟨hc, ha⟩
+  | values => exact ⟨hc, ha⟩
+  | items => exact ⟨hc, ha⟩
+  | update kvs =>
+    have := update_canon r hr kvs s.cur hc
+    simp only [step]
+    cases h : s.cur.update r kvs with
+    | mk a e =>
+      rw [h] at this
+      cases e <;> exact ⟨this, ha⟩
+  | setdefault k v =>
+    simp only [step, ADict.setdefault]
+    split
+    · rename_i heq
+      split at heq
+      · cases hg : s.cur.get r k with
+        | ok x => rw [hg] at heq; injection heq with heq; injection heq with h1 h2; subst h1; exact ⟨hc, ha⟩
+        | error e => rw [hg] at heq; cases heq
+      · cases hs : s.cur.set r k v with
+        | ok a2 =>
+          rw [hs] at heq; injection heq with heq; injection heq with h1 h2; subst h1
+          exact ⟨set_canon r hr _ _ k v hc hs, ha⟩
+        | error e => rw [hs] at heq; cases heq
+    · exact ⟨hc, ha⟩
+  | getD k v => exact ⟨hc, ha⟩
+  | copy => exact ⟨hc, hc⟩
+  | swap => exact ⟨ha, hc⟩
 
 end RtcVerif.C13
